@@ -892,9 +892,15 @@ def AA_4(dul: "DULServiceProvider") -> str:
     assoc = dul.assoc
     assoc.dimse.msg_queue.put((None, None))
 
-    # In Sta4 the transport connection attempt failed: no connection was ever
-    #   opened (no EVT_CONN_OPEN), so there is no connection close to notify
-    if dul.state_machine.current_state != "Sta4":
+    # If the transport connection attempt itself failed then no connection was
+    #   ever opened (no EVT_CONN_OPEN), so there is no connection close to notify
+    pending = list(dul.to_provider_queue.queue)[:1]
+    connect_failed = (
+        bool(pending)
+        and isinstance(pending[0], T_CONNECT)
+        and pending[0].result == "Evt17"
+    )
+    if not connect_failed:
         remote = assoc.acceptor if assoc.is_requestor else assoc.requestor
         conn_info = cast(AddressInformation, remote.address_info).as_tuple
         evt.trigger(dul.assoc, evt.EVT_CONN_CLOSE, {"address": conn_info})
